@@ -45,6 +45,11 @@ func (h c01HTMLerStringer) String() string      { return "String():" + h.s }
 
 type c01HTMLer struct{ s string }
 
+// c01Stringer is an ordinary value whose printed form is a Go string: not trusted
+type c01Stringer struct{ s string }
+
+func (v c01Stringer) String() string { return v.s }
+
 func (h c01HTMLer) HTML() template.HTML { return template.HTML(h.s) }
 
 type c01Env struct {
@@ -76,6 +81,8 @@ func (e *c01Env) context() *plush.Context {
 	c.Set("phm", map[string]template.HTML{"k": template.HTML(p)})
 	c.Set("pmix", []interface{}{template.HTML(p), p})
 	c.Set("phrs", c01HTMLerStringer{p})
+	c.Set("pstr", c01Stringer{p})
+	c.Set("ppstr", &c01Stringer{p})
 	c.Set("id", func(s string) string { return s })
 	c.Set("idi", func(v interface{}) interface{} { return v })
 	c.Set("one", []int{1})
@@ -134,6 +141,9 @@ func c01Sources(p string) []c01Expr {
 		{"HTMLer-struct-field", "phs.R", c01Val{[]c01Atom{{"trusted", p}}, false, false}},
 		{"[]interface-mixed-whole", "pmix", c01Val{[]c01Atom{{"trusted", p}, {"plain", p}}, false, false}},
 		{"HTMLer-that-is-also-a-Stringer", "phrs", c01Val{[]c01Atom{{"trusted", p}}, false, false}},
+		{"Stringer", "pstr", c01Val{[]c01Atom{{"plain", p}}, false, false}},
+		{"pointer-to-Stringer", "ppstr", c01Val{[]c01Atom{{"plain", p}}, false, false}},
+		{"debug-of-string", "debug(pv)", c01Val{[]c01Atom{{"trusted", "<pre>"}, {"plain", p}, {"trusted", "</pre>"}}, false, false}},
 	}
 	if !strings.ContainsAny(p, "\"\\") && p != "" {
 		s = append(s, c01Expr{"literal", `"` + p + `"`, c01Plain(p)})
@@ -338,7 +348,7 @@ func init() {
 			return s
 		},
 		Run:  c01Run,
-		Rule: "payload x source x value-route^d x emit-form x wrapper^e. Sources (28): context string, struct / pointer-struct field, map[string]string and map[string]interface{} value, []string / []interface{} / nested slice element (literal and variable index), whole []string / []interface{}, Go helper returning string / interface{}, user-function result, double- and back-quoted literal, and the trusted ones: template.HTML variable, HTMLer, raw(x), helper returning template.HTML, template.HTML / HTMLer struct fields, []template.HTML and []interface{} elements, map[string]template.HTML value, mixed []interface{}, a value that is both HTMLer and fmt.Stringer. Value routes (11): \"\"+x, x+\"\", x+x, x+raw(), [x][0], [x,x], [raw(),x,raw()], {k:x}[k], Go identity helpers (string / interface{}), user function. Emit forms (10): output tag, return from if / for / fn, let then emit, loop variable, partial data, contentOf data, function argument emitted inside the body, Go helper result when the helper was called with a block. Wrappers (12): top, if, else, for, fn body, helper block via Block() / BlockWith(), contentFor->contentOf (with and without data), contentOf default block, partial, partial with layout. A reference evaluator over the route gives the expected atom list (plain | trusted | literal frame); the output is walked along it: a plain atom must appear with every < > & ' \" as an entity (any spelling) and every other byte unchanged, a trusted atom byte-identical, nothing dropped, nothing emitted twice. (bytes) every single byte 0x01..0xFF and (short) every string of length <=3 over {< > & ' \" a &amp; é 世 \\xff} through every source and the direct emit forms. Non-trivial: payload contains a special character and the route has depth >= 1.",
+		Rule: "payload x source x value-route^d x emit-form x wrapper^e. Sources (28): context string, struct / pointer-struct field, map[string]string and map[string]interface{} value, []string / []interface{} / nested slice element (literal and variable index), whole []string / []interface{}, Go helper returning string / interface{}, user-function result, double- and back-quoted literal, and the trusted ones: template.HTML variable, HTMLer, raw(x), helper returning template.HTML, template.HTML / HTMLer struct fields, []template.HTML and []interface{} elements, map[string]template.HTML value, mixed []interface{}, a value that is both HTMLer and fmt.Stringer; and a plain fmt.Stringer (by value and by pointer), whose text is a Go string and therefore escaped; debug(x), whose pre tags are markup and whose printed argument is data. Value routes (11): \"\"+x, x+\"\", x+x, x+raw(), [x][0], [x,x], [raw(),x,raw()], {k:x}[k], Go identity helpers (string / interface{}), user function. Emit forms (10): output tag, return from if / for / fn, let then emit, loop variable, partial data, contentOf data, function argument emitted inside the body, Go helper result when the helper was called with a block. Wrappers (12): top, if, else, for, fn body, helper block via Block() / BlockWith(), contentFor->contentOf (with and without data), contentOf default block, partial, partial with layout. A reference evaluator over the route gives the expected atom list (plain | trusted | literal frame); the output is walked along it: a plain atom must appear with every < > & ' \" as an entity (any spelling) and every other byte unchanged, a trusted atom byte-identical, nothing dropped, nothing emitted twice. (bytes) every single byte 0x01..0xFF and (short) every string of length <=3 over {< > & ' \" a &amp; é 世 \\xff} through every source and the direct emit forms. Non-trivial: payload contains a special character and the route has depth >= 1.",
 		Bound: func(th bool) string {
 			if th {
 				return "9 payloads x value routes d<=2 x 10 emit forms x wrappers e<=2"
